@@ -5,6 +5,7 @@ package main
 
 import (
 	"fmt"
+	"sort"
 	"go/token"
 	"go/types"
 	"strings"
@@ -359,6 +360,9 @@ func (ex *Exec) applyContract(fc *FuncContract, key string, names []string, typs
 		items := ex.evalModifies(fc.Modifies, pre, env)
 		ex.guardModifies(items, key, pos)
 		ex.havocItems(items, pre)
+	}
+	if cb := fc.Pragmas["callback"]; cb != "" {
+		ex.runCallback(fc, cb, env, pos)
 	}
 	if fc.Pragmas["allocates"] != "no" {
 		na := ex.vc.Fresh("alloc", SInt)
@@ -788,4 +792,55 @@ func (ex *Exec) guardModifies(items []modItem, callee string, pos token.Pos) {
 			break
 		}
 	}
+}
+
+// runCallback: `pragma callback <param> <n>`: the library calls the function value <param> any number
+// of times with two indices in [0, n). It is executed ONCE symbolically with arbitrary in-range
+// arguments in the caller's state (so its own safety, frame and lock obligations are generated in
+// context); then everything it wrote is havocked, keeping (justified by the frame obligation just
+// generated for an arbitrary call) the locations that existed at entry outside `modifies`.
+func (ex *Exec) runCallback(fc *FuncContract, spec string, env *Env, pos token.Pos) {
+	f := strings.Fields(spec)
+	if len(f) != 2 {
+		panic(unsupported("pragma callback: want '<param> <count-param>'"))
+	}
+	cbv, ok := env.vars[f[0]]
+	if !ok {
+		panic(unsupported("pragma callback: no parameter " + f[0]))
+	}
+	fv, ok := cbv.V.(FuncV)
+	if !ok || fv.Fn == nil {
+		panic(unsupported("pragma callback: the callback is not a function literal"))
+	}
+	n := sc(env.vars[f[1]].V)
+	a := ex.vc.Fresh("cb.i", SInt)
+	b := ex.vc.Fresh("cb.j", SInt)
+	ex.vc.Assume(ex.st.pc, And(Le(I(0), a), Lt(a, n), Le(I(0), b), Lt(b, n)), "callback arguments in range")
+	before := map[string]Term{}
+	for k, v := range ex.st.heap {
+		before[k] = v
+	}
+	savedPC := ex.st.pc
+	ex.inlineCall(nil, fv, []Value{Sc{a}, Sc{b}}, pos, ex.findContract(fv.Fn))
+	// frame of one arbitrary call
+	ex.frameCheck(ex.st, "callback "+f[0], "frame", ex.posString(pos))
+	var changed []string
+	for k, v := range ex.st.heap {
+		if old, ok := before[k]; !ok || old.S != v.S {
+			changed = append(changed, k)
+		}
+	}
+	sort.Strings(changed)
+	var hk []string
+	for _, k := range changed {
+		srt := ex.heapSort[k]
+		if srt == "" || strings.HasPrefix(k, "ghost<") {
+			continue
+		}
+		ex.st.heap[k] = ex.vc.Fresh("Hcb."+k, srt)
+		ex.noteHeapWrite(k)
+		hk = append(hk, k)
+	}
+	ex.assumeFrame(ex.st, hk)
+	ex.st.pc = savedPC
 }
